@@ -5,6 +5,10 @@ package synct
 //
 //	start                  client preface + SETTINGS, server transport created, HandleStreams running
 //	hdr <sid>              client sends a well-formed gRPC request HEADERS (no END_STREAM) for stream sid
+//	hdrpark <sid>          the same, but the reader goroutine is parked inside operateHeaders at its second lock
+//	                       acquisition (t.mu, just before the t.state check; t.maxStreamID is already updated) — tie T3:
+//	                       the yield points come from the instrumented copy of http2_server.go (tools/instr/h2server.json)
+//	unpark                 release it, then let 2 ms pass (goroutines polling a held mutex retry once per ms)
 //	drain                  t.Drain("x")
 //	pingack <hex8>         client sends PING ack with that payload (goAwayPing = 0106010800030309)
 //	ping                   client sends a PING (loopy answers: something to flush)
@@ -55,6 +59,10 @@ type serverDrain struct {
 	ended   bool
 	panics  []string
 	ccOnce  sync.Once
+	armed   bool          // park the reader at its next 2nd "operateHeaders:lock"
+	seen    int           // "operateHeaders:lock" announcements since armed
+	parked  bool
+	unpark  chan struct{}
 	cancel  context.CancelFunc
 }
 
@@ -247,6 +255,38 @@ func (c *serverDrain) Op(f []string) string {
 			p = append(p, sdLit(kv[0], kv[1])...)
 		}
 		c.wq <- rawFrame(1, 4, sid, p)
+	case "hdrpark":
+		if c.parked {
+			return "bad-op"
+		}
+		sid := uint32(ccAtoi(f[1]))
+		var p []byte
+		for _, kv := range [][2]string{{":method", "POST"}, {":scheme", "http"}, {":path", "/s/m"}, {":authority", "h"},
+			{"content-type", "application/grpc"}, {"te", "trailers"}} {
+			p = append(p, sdLit(kv[0], kv[1])...)
+		}
+		c.mu.Lock()
+		c.armed, c.seen = true, 0
+		c.unpark = make(chan struct{})
+		c.mu.Unlock()
+		transport.VerifSrvHook = c.hook
+		c.wq <- rawFrame(1, 4, sid, p)
+		settle()
+		c.mu.Lock()
+		pk := c.parked
+		c.mu.Unlock()
+		if !pk {
+			// the frame never reached operateHeaders' second lock (reader gone, illegal id, or the instrumented copy is not in use)
+			c.mu.Lock()
+			c.armed = false
+			c.mu.Unlock()
+			transport.VerifSrvHook = nil
+			res = "nopark"
+		}
+	case "unpark":
+		c.doUnpark()
+		settle()
+		time.Sleep(2 * time.Millisecond)
 	case "drain":
 		c.st.Drain("x")
 	case "pingack":
@@ -287,6 +327,38 @@ func (c *serverDrain) Op(f []string) string {
 	return res + " " + c.snapshot()
 }
 
+// hook runs on whatever goroutine announces a yield point of http2_server.go.
+func (c *serverDrain) hook(label string) {
+	if label != "operateHeaders:lock" {
+		return
+	}
+	c.mu.Lock()
+	if !c.armed {
+		c.mu.Unlock()
+		return
+	}
+	c.seen++
+	if c.seen != 2 {
+		c.mu.Unlock()
+		return
+	}
+	c.armed, c.parked = false, true
+	ch := c.unpark
+	c.mu.Unlock()
+	<-ch
+}
+
+func (c *serverDrain) doUnpark() {
+	c.mu.Lock()
+	if c.parked {
+		c.parked = false
+		close(c.unpark)
+	}
+	c.armed = false
+	c.mu.Unlock()
+	transport.VerifSrvHook = nil
+}
+
 func (c *serverDrain) Close() { c.teardown() }
 
 func (c *serverDrain) teardown() {
@@ -295,6 +367,9 @@ func (c *serverDrain) teardown() {
 	}
 	c.ended = true
 	defer c.guard()
+	c.doUnpark()
+	settle()
+	time.Sleep(2 * time.Millisecond)
 	c.sconn.release()
 	if c.st != nil {
 		c.st.Close(fmt.Errorf("end of case"))
